@@ -499,18 +499,21 @@ theorem getD_freshSlots (fs : List FieldD) (j : Nat) (f : FieldD) (hf : fs[j]? =
 def UnkOk (d : MsgD) (unk : Bytes) : Prop :=
   ∃ upfs : List PField, (∀ pf ∈ upfs, Parsed pf ∧ isUnknownField d pf = true) ∧ joinRaw upfs = unk
 
-/-- **decode ∘ encode, assembled**: if decoding the bytes of each single slot restores
-    that slot (`SlotStep`), then `parse(bytes(m))` succeeds, has the same oneof selection
-    and unknown fields, holds in every slot either the original value or — where the
-    original value was not emitted at all — the unset default, and encodes to the same bytes -/
-theorem roundtrip_of_steps (S : Schema) (c : Nat) (d : MsgD) (hd : S[c]? = some d)
+/-- **the fold, assembled, for ANY nested loader `rec`**: if decoding the bytes of each
+    single slot restores that slot (`SlotStep`), then splitting `bytes(m)` into records
+    and folding the per-field step from the fresh state succeeds, yields the same oneof
+    selection and unknown fields, holds in every slot either a related value or — where
+    the original value was not emitted at all — the unset default, and re-encodes to the
+    same bytes -/
+theorem fold_of_steps (S : Schema) (rec0 : Loader) (c : Nat) (d : MsgD) (hd : S[c]? = some d)
     (sl : List Val) (ow : Bool) (unk : Bytes) (cur : List (Option Nat))
     (R : FieldD → Val → Val → Prop)
     (hm : MsgShape S d sl cur) (hunk : UnkOk d unk)
     (bs : Bytes) (hdump : dumpVal S (.msg c sl ow unk cur) = .ok bs) (hblen : bs.length < 2 ^ 64)
     (hsteps : ∀ k f v, d.fields[k]? = some f → sl[k]? = some v →
-      SlotStep S (loadInto S bs.length) d R k f (hidden f k cur) (selectedInGroup f k cur) v) :
-    ∃ sl', parse S c bs = .ok (.msg c sl' true unk cur)
+      SlotStep S rec0 d R k f (hidden f k cur) (selectedInGroup f k cur) v) :
+    ∃ sl', ((loadFields bs).bind fun pfs => foldFields S rec0 d { freshState d with onWire := true } pfs)
+        = .ok { slots := sl', onWire := true, unknown := unk, cur := cur }
       ∧ sl'.length = sl.length
       ∧ (∀ j f, d.fields[j]? = some f →
           R f (sl.getD j .ph) (sl'.getD j .ph)
@@ -526,7 +529,6 @@ theorem roundtrip_of_steps (S : Schema) (c : Nat) (d : MsgD) (hd : S[c]? = some 
     rw [hbody] at hdump; simp only [bind_ok] at hdump
     injection hdump with hbs
     obtain ⟨upfs, hup, hupj⟩ := hunk
-    let rec0 : Loader := loadInto S bs.length
     let st0 : MState := { slots := d.fields.map fun f => if f.optional then Val.none else Val.ph,
                           onWire := true, unknown := [], cur := List.replicate d.nGroups Option.none }
     have hgi0 : GI S d R sl cur 0 st0 := by
@@ -574,14 +576,12 @@ theorem roundtrip_of_steps (S : Schema) (c : Nat) (d : MsgD) (hd : S[c]? = some 
           rw [hn]; simp [hi]
       · rw [List.getElem?_eq_none (by rw [hgi.curlen]; omega), List.getElem?_eq_none (by rw [hm.curlen]; omega)]
     refine ⟨st'.slots, ?_, by rw [hgi.len, hn], ?_, ?_⟩
-    · -- parse
-      unfold parse fresh
-      rw [parseInto_eq S c d _ false [] _ bs hd, hlf]
-      simp only [bind_ok, hfo, hgo]
-      have : foldFields S (loadInto S bs.length) d st0 (pfs ++ upfs) = .ok { st' with unknown := st'.unknown ++ unk } := hfoldall
-      rw [this]
-      simp only [bind_ok, MState.toVal]
-      rw [hunk', hcur, how' rfl]
+    · -- the fold
+      rw [hlf]
+      simp only [bind_ok]
+      have : foldFields S rec0 d { freshState d with onWire := true } (pfs ++ upfs)
+          = .ok { st' with unknown := st'.unknown ++ unk } := hfoldall
+      rw [this, hunk', hcur, how' rfl]
       simp [st0]
     · intro j f hf
       have hjl : j < sl.length := by
@@ -628,5 +628,38 @@ theorem roundtrip_of_steps (S : Schema) (c : Nat) (d : MsgD) (hd : S[c]? = some 
                   exact absurd rfl (hm.selEmits j f [] hf hsel h2)
       rw [this, hbody]
       simp only [bind_ok, hbs]
+
+/-- **decode ∘ encode, assembled**: `parse(bytes(m))` for `SlotStep`s about the nested
+    loader `parse` itself uses (`loadInto S bs.length`) -/
+theorem roundtrip_of_steps (S : Schema) (c : Nat) (d : MsgD) (hd : S[c]? = some d)
+    (sl : List Val) (ow : Bool) (unk : Bytes) (cur : List (Option Nat))
+    (R : FieldD → Val → Val → Prop)
+    (hm : MsgShape S d sl cur) (hunk : UnkOk d unk)
+    (bs : Bytes) (hdump : dumpVal S (.msg c sl ow unk cur) = .ok bs) (hblen : bs.length < 2 ^ 64)
+    (hsteps : ∀ k f v, d.fields[k]? = some f → sl[k]? = some v →
+      SlotStep S (loadInto S bs.length) d R k f (hidden f k cur) (selectedInGroup f k cur) v) :
+    ∃ sl', parse S c bs = .ok (.msg c sl' true unk cur)
+      ∧ sl'.length = sl.length
+      ∧ (∀ j f, d.fields[j]? = some f →
+          R f (sl.getD j .ph) (sl'.getD j .ph)
+          ∨ (sl'.getD j .ph = freshVal f
+              ∧ dumpSlot S f (hidden f j cur) (selectedInGroup f j cur) (sl.getD j .ph) = .ok []))
+      ∧ dumpVal S (.msg c sl' true unk cur) = .ok bs := by
+  obtain ⟨sl', h1, h2, h3, h4⟩ :=
+    fold_of_steps S (loadInto S bs.length) c d hd sl ow unk cur R hm hunk bs hdump hblen hsteps
+  refine ⟨sl', ?_, h2, h3, h4⟩
+  have hfo : fieldsOf S c = d.fields := by simp [fieldsOf, hd]
+  have hgo : groupsOf S c = d.nGroups := by simp [groupsOf, hd]
+  unfold parse fresh
+  rw [parseInto_eq S c d _ false [] _ bs hd, hfo, hgo]
+  have e : ({ slots := d.fields.map fun f => if f.optional then Val.none else Val.ph, onWire := true,
+              unknown := [], cur := List.replicate d.nGroups Option.none } : MState)
+      = { freshState d with onWire := true } := rfl
+  rw [e]
+  cases hl : loadFields bs with
+  | error e => rw [hl] at h1; simp at h1
+  | ok pfs =>
+    rw [hl] at h1; simp only [bind_ok] at h1 ⊢
+    rw [h1]; rfl
 
 end Bp
